@@ -292,13 +292,16 @@ impl<'a> Page<'a> {
             return Err(Error::WalProtocol("index page: not internal"));
         }
         let n = self.cell_count();
-        // upper_bound: first key > target
+        // lower_bound: first separator >= target. A separator is the first key of its right
+        // subtree, but after a split inside a run of equal keys the left subtree holds equal
+        // keys too, so a search must start in the leftmost subtree that can hold `target`
+        // (cursors and deletes continue to the right through the leaf chain).
         let mut lo = 0usize;
         let mut hi = n;
         while lo < hi {
             let mid = (lo + hi) / 2;
             let (k, _) = self.internal_cell_key_and_right_child(mid)?;
-            if k <= target {
+            if k < target {
                 lo = mid + 1;
             } else {
                 hi = mid;
